@@ -1210,7 +1210,7 @@ func runConcurrent(run *hx.Run) {
 	deadline = time.Now().Add(time.Duration(run.N(25, 300)) * time.Second)
 	fileRounds := run.N(10, 60)
 	if raceEnabled {
-		fileRounds = 12
+		fileRounds = 2
 	}
 	for i := 0; i < fileRounds && time.Now().Before(deadline); i++ {
 		concRound(run, "file", toOutcome(fsvc), fmt.Sprintf("c%d", i), concPws(i))
@@ -1237,8 +1237,11 @@ func main() {
 		run.Finish()
 		return
 	}
-	for _, jc := range corpus(r.Fork(1)) {
+	for ci, jc := range corpus(r.Fork(1)) {
 		jc := jc
+		if raceEnabled && jc.Store == "file" && ci > 0 {
+			continue // one scrypt costs ~9 s under the race detector: keep the first (known-finding) history only
+		}
 		if jc.Store == "mem" {
 			runMem(run, &jc, r, 0)
 		} else {
@@ -1247,7 +1250,7 @@ func main() {
 	}
 	nh := run.N(6, 40)
 	if raceEnabled {
-		nh = 8
+		nh = 0
 	}
 	for h := 0; h < nh; h++ {
 		rr := r.Fork(uint64(h))
